@@ -64,8 +64,8 @@ def text(obj):
     """BSPEC text of an initialised built-in specification object, or None if the class is not modelled."""
     n = type(obj).__name__
     if n == "AvoidPattern":
-        if obj.pattern.size is None:
-            return None
+        if obj.pattern.size is None or type(obj.pattern).__name__ == "SequencePattern":
+            return None     # plain regular expressions are not modelled (the solver layer replays their recorded tables)
         return "AvoidPattern %s %s" % (pattok(obj.pattern), loctok(obj.location))
     if n == "EnforcePatternOccurence":
         return "Occ %s %d %s" % (pattok(obj.pattern), obj.occurences, loctok(obj.location))
@@ -216,7 +216,7 @@ def build(desc):
     if k == "change_min":
         return dc.EnforceChanges(minimum=desc["minimum"], location=loc)
     if k == "gc_obj":
-        return dc.EnforceGCContent(target=desc["target"], window=desc["window"], boost=desc.get("boost", 1))
+        return dc.EnforceGCContent(target=desc["target"], window=desc["window"], boost=desc.get("boost", 1), location=loc)
     return problems.build_spec(desc)
 
 
